@@ -370,3 +370,115 @@ Proof.
       destruct (existsb (N.eqb T) _) eqn:Ex; [apply existsb_eqb_in in Ex; contradiction|].
       rewrite andb_false_r. reflexivity.
 Qed.
+
+(* ================================================================== wrappers used by C05Theorems *)
+Definition track_of (t : traf) : N := tf_track (tf_hd t).
+
+Lemma history_inv_single T ops cs fr :
+  run_ops (create_fragment T) ops = (cs, Some fr) ->
+  fr_next fr = 1 /\
+  exists dt ex, fr_trafs fr = [mkTraf (create_tfhd T) dt [canon 0 (added1 T ops)] ex].
+Proof.
+  intros H. pose proof (history_single T ops [] _ _ _ (create_fragment_single T) H) as (dt & ex & Ht & Hn).
+  cbn [app] in Ht. split; [exact Hn|]. exists dt, ex. exact Ht.
+Qed.
+
+Lemma track_samples_nil T : track_samples T [] = [].
+Proof. reflexivity. Qed.
+
+Lemma history_inv_multi tracks ops cs fr :
+  NoDup tracks -> N.of_nat (length ops) < 4294967296 -> forallb to_track_op ops = true ->
+  run_ops (create_multi tracks) ops = (cs, Some fr) ->
+  exists rr : runs,
+    fr_next fr = lenN rr /\
+    map track_of (fr_trafs fr) = tracks /\
+    (forall t, In t (fr_trafs fr) ->
+       tf_truns t = mk_truns (track_of t) rr /\
+       flat_map tr_samples (tf_truns t) = added_multi tracks (track_of t) ops).
+Proof.
+  intros Hd Hb Ho H.
+  assert (Hm0 : map track_of (fr_trafs (create_multi tracks)) = tracks).
+  { cbn [create_multi fr_trafs]. rewrite map_map. unfold track_of. cbn [tf_hd create_tfhd tf_track]. apply map_id. }
+  destruct (history_multi ops [] (create_multi tracks) cs fr) as (rr & (Hn & Hd' & Hf) & Hm & Hs); try assumption.
+  { apply create_multi_inv. exact Hd. }
+  exists rr. split; [exact Hn|]. split; [unfold track_of; rewrite Hm; exact Hm0|].
+  intros t Ht. rewrite Forall_forall in Hf. specialize (Hf t Ht). split; [exact Hf|].
+  rewrite Hf, mk_truns_samples, Hs. cbn [track_samples app]. unfold track_of in Hm0. rewrite Hm0. reflexivity.
+Qed.
+
+(* ------------------------------------------------------------------ mdat bytes = added data in op order *)
+Definition is_full (o : op) : bool := match o with OFull _ _ _ | OFullTo _ _ _ _ => true | _ => false end.
+
+(* the operations of a history that returned without error *)
+Fixpoint accepted (cs : list oclass) (ops : list op) : list op :=
+  match cs, ops with
+  | COk :: cs', o :: ops' => o :: accepted cs' ops'
+  | _ :: cs', _ :: ops' => accepted cs' ops'
+  | _, _ => []
+  end.
+
+Lemma step_full_mdat fr o fr' :
+  is_full o = true -> step fr o = Ok fr' ->
+  md_data (fr_mdat fr') = md_data (fr_mdat fr) ++ op_data o /\
+  md_parts (fr_mdat fr') = md_parts (fr_mdat fr) /\
+  (md_lazy (fr_mdat fr) = 0 -> md_lazy (fr_mdat fr') = 0).
+Proof.
+  intros Hf H. destruct o as [s d data|t s d data|t s d|s d|ss d|d ss data]; try discriminate; cbn [step op_data] in H |- *.
+  - destruct (add_first fr [s] d); try discriminate. cbn [rbind] in H. injection H as <-.
+    cbn [fr_with fr_mdat md_add_data md_data md_parts md_lazy]. repeat split; auto.
+  - unfold add_sample_to_track in H.
+    destruct (add_to_track_trafs (fr_trafs fr) t (fr_next fr) s d) as [[ts n]|]; try discriminate.
+    cbn [rbind] in H. injection H as <-.
+    cbn [fr_with fr_mdat md_add_data md_set_lazy0 md_add_lazy md_data md_parts md_lazy]. repeat split; auto.
+Qed.
+
+Lemma history_full_mdat ops : forall fr cs fr',
+  forallb is_full ops = true -> run_ops fr ops = (cs, Some fr') ->
+  md_data (fr_mdat fr') = md_data (fr_mdat fr) ++ flat_map op_data (accepted cs ops) /\
+  md_parts (fr_mdat fr') = md_parts (fr_mdat fr) /\
+  (md_lazy (fr_mdat fr) = 0 -> md_lazy (fr_mdat fr') = 0).
+Proof.
+  induction ops as [|o ops IH]; intros fr cs fr' Hf H; cbn [run_ops] in H.
+  - injection H as <- <-. cbn. rewrite app_nil_r. auto.
+  - cbn [forallb] in Hf. apply andb_true_iff in Hf. destruct Hf as [Hf1 Hf2].
+    destruct (step fr o) as [fr1| | |] eqn:E; try discriminate.
+    + destruct (run_ops fr1 ops) as [cs1 r1] eqn:E1. injection H as <- ->.
+      destruct (step_full_mdat fr o fr1 Hf1 E) as (D1 & P1 & L1).
+      destruct (IH _ _ _ Hf2 E1) as (D2 & P2 & L2).
+      cbn [accepted flat_map]. rewrite D2, D1, P2, P1, app_assoc. auto.
+    + destruct (run_ops fr ops) as [cs1 r1] eqn:E1. injection H as <- ->.
+      destruct (IH _ _ _ Hf2 E1) as (D2 & P2 & L2). cbn [accepted]. auto.
+Qed.
+
+(* ------------------------------------------------------------------ data offset of a single-run fragment *)
+Lemma i32_small x : x < 2147483648 -> i32 x = Z.of_N x.
+Proof.
+  intros H. unfold i32. rewrite N.mod_small by lia.
+  destruct (x <? 2147483648) eqn:E; [reflexivity|]. apply N.ltb_ge in E. lia.
+Qed.
+
+Lemma set_offsets_single fr h dt l ex :
+  fr_trafs fr = [mkTraf h dt [canon 0 l] ex] ->
+  let m := md_size_touch (fr_mdat fr) in
+  set_offsets fr =
+    fr_with fr [mkTraf h dt [tr_with_doff (canon 0 l) (i32 (moof_size fr + md_header_size m))] ex] m (fr_next fr).
+Proof.
+  intros Ht. unfold set_offsets. rewrite Ht.
+  cbn [all_truns flat_map tf_truns app existsb canon tr_won N.eqb negb orb andb lenN length].
+  change (1 <? N.of_nat 1) with false. cbn [andb sort_won fold_right insert_won assign_offsets tr_won].
+  cbn [map tf_truns lookup_off tf_hd tf_dt tf_extra tr_won canon N.eqb]. reflexivity.
+Qed.
+
+Lemma offsets_single T ops cs fr :
+  run_ops (create_fragment T) ops = (cs, Some fr) ->
+  let m := md_size_touch (fr_mdat fr) in
+  moof_size fr + md_header_size m < 2147483648 ->
+  exists dt ex,
+    set_offsets fr =
+      fr_with fr [mkTraf (create_tfhd T) dt
+                    [tr_with_doff (canon 0 (added1 T ops)) (Z.of_N (moof_size fr + md_header_size m))] ex]
+              m (fr_next fr).
+Proof.
+  intros H m Hg. destruct (history_inv_single T ops cs fr H) as (_ & dt & ex & Ht).
+  exists dt, ex. rewrite (set_offsets_single fr _ _ _ _ Ht). fold m. rewrite i32_small by exact Hg. reflexivity.
+Qed.
